@@ -226,7 +226,79 @@ def evaluate_regular(case):
     return Outcome(True, d > 1 or bool(case["extra_dead_arcs"]), labels)
 
 
+@st.composite
+def budget_cases(draw, tier):
+    """Any graph x the documented iteration parameters: small iteration budgets make the out-of-budget (median)
+    fallback the common path, on converging, slowly converging, periodic and reducible graphs alike."""
+    source = draw(st.sampled_from(["arcs", "generated", "dense", "periodic", "periodic"]))
+    rng = random.Random(draw(st.integers(0, 2 ** 32 - 1)))
+    if source == "generated":
+        spec = draw(gens.generated_graphs(1, 4, {1: 1, 2: 4, 3: 3, 4: 1}))
+        graph = {"k": spec["k"], "rows": spec["rows"]}
+    elif source == "periodic":
+        # a random class function c: V -> Z_p; only arcs u -> w with c(w) = c(u) + 1 are kept: every cycle length is a
+        # multiple of p, so the power iteration oscillates instead of converging
+        k = draw(st.sampled_from([1, 2, 2, 3, 3, 4]))
+        p = draw(st.sampled_from([2, 2, 3, 4]))
+        table = o.succ_table(k)
+        cls = [rng.randrange(p) for _ in range(4 ** k)]
+        graph = {"k": k, "rows": [sum(1 << j for j in range(4) if cls[table[u][j]] == (cls[u] + 1) % p)
+                                  for u in range(4 ** k)]}
+    else:
+        graph = draw(gens.arc_subsets(1, 4, {1: 1, 2: 5, 3: 3, 4: 1}))
+        if source == "dense":
+            graph = dict(graph, rows=[r | (1 << rng.randrange(4)) | (1 << rng.randrange(4)) for r in graph["rows"]])
+    return {"graph": graph, "repeats": draw(st.integers(1, 5)), "np_seed": draw(st.integers(0, 2 ** 32 - 1)),
+            "maximum_iteration": draw(st.sampled_from([2, 3, 4, 5, 6, 8, 10, 13, 21, 34, 55, 120, 500])),
+            "tolerance_level": draw(st.sampled_from([-10, -10, -6, -8, -12, -14])),
+            "source": source}
+
+
+def evaluate_budget(case):
+    import numpy
+    dsw = import_dsw()
+    graph = case["graph"]
+    k, rows = graph["k"], graph["rows"]
+    acc = gens.accessor_of(graph, None)
+    snapshot = numpy.array(acc, copy=True)
+    limit = case["maximum_iteration"]
+    numpy.random.seed(case["np_seed"])
+    got = lib_call(dsw.approximate_capacity, _twice=False, accessor=acc, repeats=case["repeats"], process=True,
+                   tolerance_level=case["tolerance_level"], maximum_iteration=limit)
+    labels = ["k=%d" % k, "source:" + case["source"], "maximum_iteration=%d" % limit]
+    what = "approximate_capacity(repeats=%d, tolerance_level=%d, maximum_iteration=%d, np_seed=%d) on k=%d rows=%r" \
+           % (case["repeats"], case["tolerance_level"], limit, case["np_seed"], k, rows if len(rows) <= 64 else "...")
+    if isinstance(got, Raised):
+        return bad("%s raised %r" % (what, got), labels)
+    if not numpy.array_equal(acc, snapshot):
+        return bad("%s modified the accessor" % what, labels)
+    value, records = got
+    records = [records] if case["repeats"] == 1 else records
+    if not float(value) <= 2.0 + 1e-12:
+        return bad("%s returned %r: more than 2 bits per nucleotide" % (what, float(value)), labels)
+    if not any(rows) and float(value) != 0.0:
+        return bad("%s: arc-less graph has capacity %r" % (what, float(value)), labels)
+    longest = max(len(r) for r in records)
+    if longest > limit + 2:
+        return bad("%s ran %d power-iteration steps, the iteration budget is %d" % (what, longest, limit), labels)
+    out_of_budget = any(len(r) > limit for r in records)
+    if out_of_budget:
+        labels.append("out_of_budget_fallback")
+        tail = records[0][-3:]
+        if len(records[0]) > limit and len(tail) == 3 and (tail[0] < tail[1] < tail[2] or tail[0] > tail[1] > tail[2]):
+            labels.append("fallback_after_monotone_estimates")
+    return Outcome(True, out_of_budget, labels)
+
+
 SUBCHECKS = [
+    SubCheck("iteration_budgets", evaluate_budget, strategy=budget_cases, examples=(3000, 40000), shards=(16, 16),
+             floors={"out_of_budget_fallback": 800, "fallback_after_monotone_estimates": 200, "source:periodic": 600},
+             timeout=120.0,
+             rule="Arc subsets, dense arc subsets, generated graphs and constructed periodic graphs (period 2..4) of "
+                  "order 1..4 x repeats 1..5 x maximum_iteration in {2..500} x tolerance_level in {-6..-14}: the "
+                  "call must return without raising or modifying the accessor, the result must not exceed 2 (0 for an "
+                  "arc-less graph) and no repeat may run more than maximum_iteration + 2 steps. Non-trivial: some "
+                  "repeat ran out of its iteration budget (the median fallback decided the result)."),
     SubCheck("spectral_radius", evaluate_graph, strategy=graph_cases, examples=(1600, 24000), shards=(16, 16),
              floors={"admissible": 250, "steps>5": 120, "arc_less": 3}, rule=RULE, timeout=120.0),
     SubCheck("regular_graphs", evaluate_regular, strategy=regular_cases, examples=(600, 6000), shards=(8, 16),
